@@ -199,3 +199,22 @@ def t1(ctx):
     for c in CONTRACTS:
         verify_contract(ctx, SUITE, c, sentinels=False, replay=replay_mrca)
     validate_assumed(ctx)
+
+
+def replay(ctx, rec):
+    """re-run the recorded call natively"""
+    import dendropy
+    w = rec.get("witness", {})
+    if "tree" not in w:
+        print("no input recorded for this obligation")
+        return True
+    tree = dendropy.Tree.get(data=w["tree"], schema="newick", suppress_internal_node_taxa=True)
+    tree.encode_bipartitions(suppress_unifurcations=False, collapse_unrooted_basal_bifurcation=False)
+    q = int(w["q"], 2)
+    res = tree.mrca(leafset_bitmask=q, is_bipartitions_updated=True)
+    top = tree.seed_node.edge.bipartition._leafset_bitmask
+    ok = (res is None) == ((q & top) != q)
+    if res is not None:
+        ok = ok and (res.edge.bipartition._leafset_bitmask & q) == q and not any((ch.edge.bipartition._leafset_bitmask & q) == q for ch in res._child_nodes)
+    print("mrca(leafset_bitmask=%s) on %s -> %r: %s" % (w["q"], w["tree"], res, "as specified" if ok else "violates the contract"))
+    return ok
